@@ -79,7 +79,19 @@ def predicate_table(m):
     fd = m.func(EDL + "._can_hlo_be_distributed")
     rets = [r for r in ast.walk(fd) if isinstance(r, ast.Return)]
     if len(rets) != 1:
-        raise AnalysisError("_can_hlo_be_distributed: expected a single return")
+        # guard clauses and an if/elif chain of returns: the same predicate as ONE
+        # conditional expression
+        e = m.as_expression(fd)
+        if e is None:
+            raise AnalysisError("_can_hlo_be_distributed: neither a single return nor a "
+                                "chain of ifs and returns")
+        r0 = ast.Return(value=e, lineno=fd.lineno)
+        r0._parent = fd
+        for p_ in ast.walk(e):
+            for ch in ast.iter_child_nodes(p_):
+                ch._parent = p_
+        e._parent = r0
+        rets = [r0]
     param = fd.args.args[0].arg
     ops = enum_members(m, "pytato.raising.BinaryOpType")
     domain = {"op": ops, "x1": ["scalar", "array"], "x2": ["scalar", "array"],
@@ -95,9 +107,20 @@ def r_law(c):
     c.units["truth_table_points"] = len(rows)
     # the BinaryOp test must dominate: predicate false for non-BinaryOp
     top = ret.value
+
+    def _is_binop_test(v):
+        return isinstance(v, ast.Call) and ast.unparse(v.func) == "isinstance" \
+            and ast.unparse(v.args[1]).endswith("BinaryOp")
     dominated = isinstance(top, ast.BoolOp) and isinstance(top.op, ast.And) and any(
-        isinstance(v, ast.Call) and ast.unparse(v.func) == "isinstance"
-        and ast.unparse(v.args[1]).endswith("BinaryOp") for v in top.values)
+        _is_binop_test(v) for v in top.values)
+    if isinstance(top, ast.IfExp):
+        # `False if not isinstance(hlo, BinaryOp) else ...` (a guard clause)
+        t, neg = top.test, False
+        while isinstance(t, ast.UnaryOp) and isinstance(t.op, ast.Not):
+            t, neg = t.operand, not neg
+        other = top.body if neg else top.orelse
+        dominated = _is_binop_test(t) and isinstance(other, ast.Constant) \
+            and other.value is False
     c.check(dominated, "R06-LAW", "_can_hlo_be_distributed", "only-binary-ops", where,
             "the predicate is not a conjunction with isinstance(hlo, BinaryOp): "
             "non-binary operations could be distributed")
